@@ -29,8 +29,9 @@ import (
 
 // Family `integrity` (property C04): CheckIntegrity and the decode loop on byte strings.
 //
-//	integ   [chk=0|1] [rb=<n>] b:<hex>                      → ci=ok:<seq>|err:<class>:<seq> dec=ok:<seq>:<msgs>|err:<class>:<seq>
-//	integcx <flip|burst|trunc> [lo=<byte>] [hi=<byte>] [len=<k> pat=<w>] [chk=..] b:<hex>
+//	integ   [chk=0|1] [rb=<n>] [rd=<reader>] [eo=<n> el=<len>] b:<hex>   (eo: the bytes ARE real encoder output, n sequences, 14-byte headers)
+//	                                                         → ci=ok:<seq>|err:<class>:<seq> dec=ok:<seq>:<msgs>|err:<class>:<seq>
+//	integcx <flip|burst|trunc> [lo=<byte>] [hi=<byte>] [end=<byte>] [len=<k> pat=<w>] [chk=..] [eo=<n> el=<len>] b:<hex>
 //	                                                         → n=<corruptions> ci_ok=<accepted> dec_ok=<accepted> h=<digest of outcome classes>
 //	integv  b:<hex>                                          → ok:<seq> | bad:<seq>   (CheckIntegrity only; spec mode = the reference)
 //	fitformat b:<hex>                                        → segments of the raw decoder: H<off>+<len> D.. M.. C..
@@ -878,7 +879,7 @@ func genIntegrity(emit func(string), tier string, rng *Rng) {
 		outputs = append(outputs, b)
 		tag := ""
 		if !cfg.hdr12 {
-			tag = fmt.Sprintf(" eo=%d", cfg.chain)
+			tag = fmt.Sprintf(" eo=%d el=%d", cfg.chain, len(b))
 			tags[string(b)] = tag
 			count("tagged-encoder-output")
 		}
